@@ -443,51 +443,99 @@ def _check_kind_order(ctx, rep):
         rep.undecided("I4", fm, "return", "map is not a dict(kind=first_index) literal")
     # mode lookup
     gm = meth("_get_mode_from_index_var_total")
+    from ..symsum import cases, returning
     ok, why, seen = True, "", []
-    for n in own_nodes(gm.node):
-        if isinstance(n, ast.If) and isinstance(n.test, ast.Compare) and len(n.test.ops) == 2:
-            lo, hi = n.test.left, n.test.comparators[1]
-            mode = None
-            for s in n.body:
-                if isinstance(s, ast.Assign) and isinstance(s.value, ast.Constant):
-                    mode = s.value.value
-            if mode not in ref:
-                continue
-            seen.append(mode)
-            i = ref.index(mode)
+    cs = cases(gm)
 
-            def key(e):
-                if isinstance(e, ast.Subscript) and isinstance(e.slice, ast.Constant):
-                    return e.slice.value
-                if is_num(e, 0):
-                    return ref[0]
-                if isinstance(e, ast.Call) and "size_var_total" in (dotted(e.func) or ""):
-                    return "<end>"
-                return unparse(e)
-
-            wlo, whi = ref[i], (ref[i + 1] if i + 1 < len(ref) else "<end>")
-            if key(lo) != wlo or key(hi) != whi:
-                ok, why = False, "mode '%s' is selected for [%s, %s) but its block is [%s, %s)" % (mode, key(lo), key(hi), wlo, whi)
-            if not (isinstance(n.test.ops[0], ast.LtE) and isinstance(n.test.ops[1], ast.Lt)):
-                ok, why = False, "interval for '%s' is not half-open [lo, hi)" % mode
-    if sorted(seen) != sorted(KINDS):
-        ok, why = False, "lookup covers %s" % seen
-    rep.check(ok, "I4", gm, "mode intervals", "each kind's interval is [first(kind), first(next kind))", why, node=gm.node)
+    def key(e):
+        if isinstance(e, ast.Subscript) and isinstance(e.slice, ast.Constant):
+            return e.slice.value
+        if is_num(e, 0):
+            return ref[0]
+        if isinstance(e, ast.Call) and "size_var_total" in (dotted(e.func) or ""):
+            return "<end>"
+        return unparse(e)
+    for cse in (returning(cs) if cs else []):
+        v = cse.value
+        if not (isinstance(v, ast.Constant) and v.value in ref):
+            continue
+        mode = v.value
+        # the interval under which this kind is returned: the (last) chained comparison lo <= index < hi taken on this path
+        ivs = [n for t, pol, n in cse.guards if pol and isinstance(n, ast.Compare) and len(n.ops) == 2]
+        if not ivs:
+            continue
+        n = ivs[-1]
+        seen.append(mode)
+        i = ref.index(mode)
+        lo, hi = n.left, n.comparators[1]
+        wlo, whi = ref[i], (ref[i + 1] if i + 1 < len(ref) else "<end>")
+        if key(lo) != wlo or key(hi) != whi:
+            ok, why = False, "mode '%s' is selected for [%s, %s) but its block is [%s, %s)" % (mode, key(lo), key(hi), wlo, whi)
+        if not (isinstance(n.ops[0], ast.LtE) and isinstance(n.ops[1], ast.Lt)):
+            ok, why = False, "interval for '%s' is not half-open [lo, hi)" % mode
+    if sorted(set(seen)) != sorted(KINDS):
+        rep.undecided("I4", gm, "mode intervals", "the lookup is not a chain of `first(kind) <= index < first(next kind)` tests (kinds recognised: %s)" % sorted(set(seen)))
+    else:
+        rep.check(ok, "I4", gm, "mode intervals", "each kind's interval is [first(kind), first(next kind))", why, node=gm.node)
     # set_qoperations_from_var_total iterates _all_qoperations() with cumulative slices
     sq = meth("set_qoperations_from_var_total")
     loops = [n for n in own_nodes(sq.node) if isinstance(n, ast.For)]
-    ok = False
+    from .c12 import _ipoly
+    verdict = None
     why = "no loop over _all_qoperations()"
     for lp in loops:
         it = inline(sq, lp.iter)
-        if isinstance(it, ast.Call) and "_all_qoperations" in (dotted(it.func) or ""):
-            txt = [unparse(s) for s in lp.body]
-            cum = any(t.replace(" ", "") == "start_index=end_index" for t in txt)
-            sl = any("var_total[start_index:end_index]" in t for t in txt)
-            ln = any("end_index = start_index + len(" in t and ".to_var()" in t for t in txt)
-            ok = cum and sl and ln
-            why = "slices are not cumulative over the object's own variable length"
-    rep.check(ok, "I4", sq, "slicing loop", "iterates _all_qoperations() with cumulative slices of len(to_var())", why, node=sq.node)
+        if not (isinstance(it, ast.Call) and "_all_qoperations" in (dotted(it.func) or "") and isinstance(lp.target, ast.Name)):
+            continue
+        lv = lp.target.id
+        # the slices var_total[a:b] taken in the body, and the running offset, as polynomials in (offset at the top of the body, len(<item>.to_var()))
+        slices = [n for n in ast.walk(lp) if isinstance(n, ast.Subscript) and unparse(n.value) == "var_total" and isinstance(n.slice, ast.Slice)]
+        if len(slices) != 1 or slices[0].slice.lower is None or slices[0].slice.upper is None or slices[0].slice.step is not None:
+            verdict, why = None, "expected one slice var_total[a:b] in the loop body"
+            continue
+        offs = {x.id for x in ast.walk(slices[0].slice.lower) if isinstance(x, ast.Name)}
+        env = {}
+        try:
+            pos = None
+            for st in lp.body:
+                if any(x is slices[0] for x in ast.walk(st)):
+                    lo = _ipoly(slices[0].slice.lower, dict(env))
+                    hi = _ipoly(slices[0].slice.upper, dict(env))
+                    pos = (lo, hi)
+                if isinstance(st, ast.Assign) and len(st.targets) == 1 and isinstance(st.targets[0], ast.Name):
+                    env[st.targets[0].id] = _freeze_expr(st.value, env)
+                elif isinstance(st, ast.AugAssign) and isinstance(st.target, ast.Name) and isinstance(st.op, ast.Add):
+                    env[st.target.id] = _freeze_expr(ast.BinOp(left=ast.Name(id=st.target.id, ctx=ast.Load()), op=ast.Add(), right=st.value), env)
+            if pos is None:
+                verdict, why = None, "slice not found at the top level of the loop body"
+                continue
+            lo, hi = pos
+            from ..poly import Poly
+            L = Poly.sym("len(%s.to_var())" % lv)
+            cand = [x for x in offs if lo == Poly.sym(x)]
+            if len(cand) != 1:
+                verdict, why = False, "the slice starts at %r, which is not the running offset" % lo
+                continue
+            S = Poly.sym(cand[0])
+            end = _ipoly(ast.Name(id=cand[0], ctx=ast.Load()), dict(env))
+            if hi != S + L:
+                verdict, why = False, "the slice is [%r, %r): its length is not the object's own variable length len(%s.to_var())" % (lo, hi, lv)
+            elif end != S + L:
+                verdict, why = False, "after the step the offset is %r; it must advance by the object's own variable length (%r)" % (end, S + L)
+            else:
+                verdict = True
+        except ValueError as ex:
+            verdict, why = None, str(ex)
+    if verdict is None:
+        rep.undecided("I4", sq, "slicing loop", why)
+    else:
+        rep.check(verdict, "I4", sq, "slicing loop", "iterates _all_qoperations() with cumulative slices of len(to_var())", why, node=sq.node)
+
+
+def _freeze_expr(e, env):
+    """e with the names bound so far replaced by their (already frozen) expressions"""
+    from ..symsum import subst
+    return subst(e, env)
 
 
 def _check_prefix_sums(ctx, rep):
